@@ -670,6 +670,8 @@ class Ref:
             k = int(t[1])
             self.drop(k)
             exp = self.finfo_expect.get(line)
+            if exp == "invalid":
+                return "9 0 null"  # a file that is corrupt by construction (misaligned Stream Padding): LZMA_DATA_ERROR
             if exp is None:
                 return None        # not predicted by this reference (malformed file): see judge_finfo()
             self.idx[k] = [x.copy() for x in exp]
